@@ -303,6 +303,24 @@ _fixed_arity_cb("string_pair", list)
 _fixed_arity_cb("composite_type", list)
 
 
+@register
+class Cb_composite_body(Contract):
+    """composite_body hands its children on untouched (the list object itself, any length, any child kinds): composite()
+    receives exactly what Lark collected"""
+    target = "mappyfile.transformer.MapfileTransformer.composite_body"
+    cases = ["empty", "some"]
+    props = ("C02", "C13", "C19")
+
+    def build(self, E, case):
+        t = [] if case == "empty" else [Seg("child", 0), Seg("child", 1), Seg("child", 2)]
+        E.__dict__["body"] = (t, list(t))
+        return (mk_tr(E), t), {}
+
+    def ensures(self, E, case, args, kwargs, out):
+        t, snap = E.__dict__["body"]
+        yield "the-same-list-untouched", out.kind == "return" and out.value is t and len(t) == len(snap) and all(a is b for a, b in zip(t, snap))
+
+
 # ---------------------------------------------------------------------------------------------
 # expressions (C10)
 # ---------------------------------------------------------------------------------------------
